@@ -37,18 +37,17 @@ def _const_value(node: ast.AST) -> ast.AST | None:
     """literal AST for a module-level constant, or None"""
     if isinstance(node, ast.Constant):
         return node
-    if isinstance(node, (ast.Tuple, ast.List, ast.Set)) and all(isinstance(e, ast.Constant) for e in node.elts):
-        return node
-    if isinstance(node, ast.Dict) and all(isinstance(k, ast.Constant) for k in node.keys) and all(isinstance(v, (ast.Constant, ast.Attribute)) for v in node.values):
+    # only immutable values are propagated: a module-level list/dict/set is shared mutable state and must stay visible
+    if isinstance(node, ast.Tuple) and all(isinstance(e, ast.Constant) for e in node.elts):
         return node
     if isinstance(node, ast.UnaryOp) and isinstance(node.operand, ast.Constant):
         return node
     if isinstance(node, ast.Call) and dotted(node.func) == "int.from_bytes" and len(node.args) == 2 and isinstance(node.args[0], ast.Constant) \
             and isinstance(node.args[0].value, bytes) and isinstance(node.args[1], ast.Constant) and node.args[1].value in ("big", "little"):
         return ast.Constant(int.from_bytes(node.args[0].value, node.args[1].value))
-    if isinstance(node, ast.Call) and dotted(node.func) in ("frozenset", "tuple") and len(node.args) == 1:
-        inner = _const_value(node.args[0])
-        return inner
+    if isinstance(node, ast.Call) and dotted(node.func) in ("frozenset", "tuple") and len(node.args) == 1 and isinstance(node.args[0], (ast.Tuple, ast.List, ast.Set)) \
+            and all(isinstance(e, ast.Constant) for e in node.args[0].elts):
+        return ast.Tuple(list(node.args[0].elts), ast.Load())
     if isinstance(node, ast.BinOp):
         from .match import const_int
         v = const_int(node)
